@@ -255,7 +255,32 @@ def run_strings(case):
     itp, e0 = call(lg.interpret, list(args))
     if e0 is None:
         coq.append(f'CInterp (PSeq {pa}) ({coq_tr(itp)})')
+    # "Iterables are traversed": ONE-SHOT iterables (iterators, generators, map / reversed objects, tuples) must give what the list gives
+    if e0 is None:
+        def gen(xs):
+            for x in xs:
+                yield x
+        once = lambda a: iter(a) if isinstance(a, str) and len(a) != 1 else (gen(a) if isinstance(a, (list, tuple)) else a)
+        for what, mk in (('an iterator over the arguments', lambda: iter(list(args))), ('a generator of the arguments', lambda: gen(args)),
+                         ('a tuple', lambda: tuple(args)), ('a map object', lambda: map(lambda x: x, args)),
+                         ('iterators over the characters of every pattern', lambda: [once(a) for a in args]),
+                         ('a generator of character iterators', lambda: gen([once(a) for a in args]))):
+            got, e1 = call(lg.interpret, mk())
+            if e1 is not None or got != itp:
+                return coq, f'interpret of {what} gives {e1 or got}, the list of the same items gives {itp}'
+        strs = [a for a in args if isinstance(a, str) and len(a) > 1]
+        if strs:
+            got, e1 = call(lg.interpret, reversed(strs[0]))
+            ref, _ = call(lg.interpret, strs[0][::-1])
+            if e1 is not None or got != ref:
+                return coq, f'interpret(reversed({strs[0]!r})) gives {e1 or got}, interpret({strs[0][::-1]!r}) gives {ref}'
     mva, err = call(lg.mvarray, *args)
+    if err is None:
+        def gen2(x):
+            yield from x
+        alt, e2 = call(lg.mvarray, *[(gen2(a) if isinstance(a, (str, list, tuple)) and len(a) != 1 else a) for a in args])
+        if e2 is not None or not (isinstance(alt, np.ndarray) and alt.shape == np.asarray(mva).shape and np.array_equal(alt, mva)):
+            return coq, f'mvarray of generators over the same patterns gives {e2 or np.asarray(alt).tolist()}, of the patterns themselves {np.asarray(mva).tolist()}'
     if err is None and not (isinstance(mva, np.ndarray) and mva.dtype == np.uint8):
         return coq, f'mvarray returns {type(mva).__name__} of dtype {getattr(mva, "dtype", None)}, not a uint8 array'
     coq.append('CMvarray %s %s' % (pa, coq_opt(None if err else arr_view(mva), lambda v: f'({coq_shape(v[0])}, {coq_tr(v[1])})')))
